@@ -139,7 +139,7 @@ func TestC08SM(t *testing.T) {
 			Monitors: mon.Of("paused-frozen", "promotion-rule", "status-function", "canary-verdict", "no-panic"),
 			Weights:  weights(defaultWeights(), map[string]int{"annotation": 8, "edit-template": 4, "node-add": 3, "round": 6, "pod-unknown": 0, "node-taint": 0, "node-relabel": 0})},
 		MinSteps: 15, MaxSteps: 60,
-		After:    func(w *World) { w.stabilise("resume") },
+		After: func(w *World) { w.stabilise("resume") },
 		NonTrivial: func(w *World) bool {
 			f := w.Facts
 			return f["paused-with-outdated-pods"]+f["frozen-with-work"]+f["paused-with-missing-pods"]+f["canary-paused-with-missing-pods"] > 0
@@ -155,7 +155,7 @@ func TestC09SM(t *testing.T) {
 		Rule: "history with reconcile requests arriving at generated instants (sub-second to minutes apart) over 2-8 nodes with node additions and template edits; monitor rate (creates per sync <= slow-start bound; write-issuing syncs of one replica set >= reconcileFrequency-1s apart when the first status write succeeded) and budget; non-trivial = a sync read more missing pods than the bound allows (cap binding) or a sync request arrived less than reconcileFrequency after the previous one; distinct by action trace",
 		Cfg: WorldCfg{MinNodes: 2, MaxNodes: 8, Letters: "AB", Strategy: gen.StrategyOpts{Canary: 0}, Forks: 1, Affinity: 2, PlainNodes: true, Warmup: 2,
 			Monitors: mon.Of("rate", "budget", "no-panic"),
-			Weights: map[string]int{"rec-eds": 6, "rec-ers": 20, "advance": 12, "kubelet": 5, "pod-start": 2, "edit-template": 2, "node-add": 3, "round": 2, "pod-finalize": 2, "pod-unready": 1}},
+			Weights:  map[string]int{"rec-eds": 6, "rec-ers": 20, "advance": 12, "kubelet": 5, "pod-start": 2, "edit-template": 2, "node-add": 3, "round": 2, "pod-finalize": 2, "pod-unready": 1}},
 		MinSteps: 15, MaxSteps: 70,
 		NonTrivial: func(w *World) bool { return w.Facts["creation-cap-binding"] > 0 || w.CloseSyncs > 0 },
 	})
@@ -279,7 +279,7 @@ func TestC14SM(t *testing.T) {
 			Monitors: mon.Of("status-function", "rs-status-order", "no-panic"),
 			Weights:  weights(defaultWeights(), map[string]int{"round": 6, "annotation": 4})},
 		MinSteps: 12, MaxSteps: 60,
-		After: func(w *World) { w.stabilise("quiescent-status") },
+		After:      func(w *World) { w.stabilise("quiescent-status") },
 		NonTrivial: func(w *World) bool { return len(w.RSSeen) >= 2 || w.AnnotFlips > 0 },
 	})
 }
@@ -308,7 +308,7 @@ func TestC02SM(t *testing.T) {
 			Monitors: mon.Of("no-panic"),
 			Weights:  weights(defaultWeights(), map[string]int{"pod-dup": 1, "edit-template": 5, "round": 5, "canary-valid": 1, "node-annotate": 2, "setting-toggle": 2})},
 		MinSteps: 5, MaxSteps: 40,
-		After:    func(w *World) { w.stabilise("converge") },
+		After: func(w *World) { w.stabilise("converge") },
 		NonTrivial: func(w *World) bool {
 			return (w.TemplateEdits > 0 || w.NodeChurn > 0) && w.Facts["stabilisation-work"] > 0
 		},
